@@ -173,7 +173,7 @@ func startDeadlockWatchdog(rec *verifkit.Rec) {
 	})
 }
 
-var blockedRE = regexp.MustCompile(`(?s)goroutine \d+ \[sync\.Mutex\.Lock[^\]]*\]:\n(.*?)\n\n`)
+var blockedRE = regexp.MustCompile(`(?s)goroutine (\d+) \[sync\.Mutex\.Lock[^\]]*\]:\n(.*?)\n\n`)
 
 // lockWaiters returns the galene functions of goroutines currently blocked on a mutex.
 func lockWaiters() []string {
@@ -182,7 +182,7 @@ func lockWaiters() []string {
 	var res []string
 	for _, m := range blockedRE.FindAllStringSubmatch(string(buf[:n])+"\n\n", -1) {
 		var frames []string
-		for _, l := range strings.Split(m[1], "\n") {
+		for _, l := range strings.Split(m[2], "\n") {
 			if strings.HasPrefix(l, "github.com/jech/galene/") && !strings.Contains(l, "zz_verif") && !strings.Contains(l, "fakeClient") {
 				f := strings.TrimPrefix(l, "github.com/jech/galene/")
 				if i := strings.Index(f, "("); i > 0 {
@@ -192,7 +192,9 @@ func lockWaiters() []string {
 			}
 		}
 		if len(frames) > 0 {
-			res = append(res, strings.Join(frames, " <- "))
+			// the goroutine's number is part of the signature: two different goroutines waiting briefly in the same function
+			// at two sampling instants (successive cases of one test) are not one goroutine waiting for ever
+			res = append(res, "g"+m[1]+" "+strings.Join(frames, " <- "))
 		}
 	}
 	return res
@@ -630,13 +632,13 @@ func TestVerif_C13_CoordinatedSchedules(t *testing.T) {
 		pauseIn := rapid.SampledFrom([]string{"Permissions", "Permissions", "Joined", "PushClient", "GetStats"}).Draw(t, "pauseIn")
 		first := rapid.SampledFrom([]string{"join", "join", "leave-op", "lock", "reload", "stats"}).Draw(t, "pausedOperation")
 		second := rapid.SampledFrom([]string{"whip-close", "whip-close", "whip-offer", "whip-offer", "whip-offer-then-close", "join", "leave", "kick-whip", "stats", "getclients", "web-offer", "web-offer",
-			"recorder-asks-whip", "recorder-asks-whip"}).Draw(t, "meanwhile")
+			"recorder-asks-whip", "recorder-asks-whip", "recorder-asks-everybody", "recorder-asks-everybody"}).Draw(t, "meanwhile")
 		offerSDP := c13WhipOffer()
 		// a recording client asks the WHIP member for its streams; like the real recorder, it warns the group's operators
 		// (which walks the members under the group's lock) when it is pushed a stream it cannot use
 		R := &fakeClient{id: "R"}
 		R.onPushConn = func(g *group.Group) { g.WallOps("recorder: no usable tracks") }
-		if second == "recorder-asks-whip" {
+		if second == "recorder-asks-whip" || second == "recorder-asks-everybody" {
 			ctx, cancel := context.WithTimeout(context.Background(), 10*time.Second)
 			if _, err := W.NewConnection(ctx, []byte(offerSDP)); err != nil {
 				t.Fatalf("VERIF-HARNESS-ERROR: WHIP offer in the set-up: %v", err)
@@ -731,6 +733,9 @@ func TestVerif_C13_CoordinatedSchedules(t *testing.T) {
 			case "getclients":
 				g.GetClients(nil)
 			case "recorder-asks-whip":
+				// the state right after the handlers' helper has taken its snapshot of the members: the WHIP member is asked
+				W.RequestConns(R, g, "")
+			case "recorder-asks-everybody":
 				// as the "record" and "request" handlers do: every member is asked for its streams on behalf of the target
 				requestConns(R, g, "")
 			case "web-offer":
